@@ -132,7 +132,11 @@ def compare_toy(it, mt, fields=None):
         d = first_diff(a[0], b[0], f"op{k}.outcome")
         if d:
             return d
-        sa, sb = a[1], b[1]
+        sa, sb = list(a[1]), list(b[1])
+        # explicit zero cells are a representation detail of the memory dict
+        if len(sa) > 2 and len(sb) > 2:
+            sa[2] = [c for c in sa[2] if c[1] != 0]
+            sb[2] = [c for c in sb[2] if c[1] != 0]
         if fields is not None:
             sa = [sa[i] for i in fields if i < len(sa)]
             sb = [sb[i] for i in fields if i < len(sb)]
